@@ -27,10 +27,11 @@ CHECKS["C03"] = dict(
              thorough=dict(params=dict(adds=4, jump=4, back=70), flags=["-qtimeout", "600000"], timeout=3000)),
         dict(pkg="pkg/nack", entry="HC03MissingScan", params=dict(maxd=8, size=64),
              thorough=dict(params=dict(maxd=10), flags=["-qtimeout", "600000"], timeout=3000)),
+        dict(pkg="pkg/nack", entry="HC03LogHistory", params=dict(adds=3, jump=4, back=134, size=128), flags=["-qtimeout", "600000"], tiers=["thorough"]),
     ] + [dict(pkg="pkg/nack", entry="HC03Interceptor", params=dict(maxnacks=m, ticks=3), require_covers=["nack sent", "second loss"], no_native=True) for m in (0, 1, 2)],
     bounds=dict(quick="receiveLog size 64; histories from the constructor: 3 adds, forward jumps <=4, backward <=70 (older than window included), any base incl. wrap; state-level oracle (bitmap == reference set on the whole window, cursor = end of gap-free prefix). missingSeqNumbers from an ARBITRARY bitmap/end state with cursor distance <=8, skipLastN 0..5. Interceptor level: generator (size 64) with two NACK-negotiated streams and one not negotiated, a fixed small arrival pattern per stream with one case-split offset and one failing read, 3 ticks fired by the harness with a second loss arriving after the first tick, + one tick after unbinding a stream, per-packet limit 0/1/2: NACK contents per tick and stream == reference missing set, limit honoured, nothing for the non-negotiated or unbound stream.",
-                thorough="4 adds; cursor distance <=10"),
-    outside=["window sizes 128..32768 (same code, index arithmetic seq%size)", "forward jumps >4 in histories (loop length only)", "cursor distance >10 in the scan lemma (solver does not finish the compaction argument beyond that: unknown at 60 s for 16)",
+                thorough="4 adds; cursor distance <=10; histories also at window size 128 (3 adds, backward jumps up to 134)"),
+    outside=["window sizes 256..32768 (size 512 histories: solver unknown at 60 s)", "forward jumps >4 in histories (loop length only)", "cursor distance >10 in the scan lemma (solver does not finish the compaction argument beyond that: unknown at 60 s for 16)",
              "interceptor level beyond the fixed arrival pattern (arbitrary interleavings of ticks and arrivals)"],
     assumptions=["sync.RWMutex modelled as engine primitive", "decomposition: history harness checks the state, scan harness checks state->output from any state"],
 )
